@@ -1,6 +1,8 @@
 import PhyloModel.Arena.Cli
 import PhyloModel.Props.C11
 import PhyloModel.Arena.QRLemmas
+import PhyloModel.Arena.CliCollapse
+import PhyloModel.Arena.CliRemove
 /-! # C18 — command-line subcommands agree with the library semantics
 
 The tool's own logic is modelled in `Arena/Cli.lean` (`collapse`, `remove`); the other subcommands are direct
@@ -73,5 +75,275 @@ theorem remove_rejects_non_tips (a : Arena) (name : String) (rest : List String)
 /-- `rescale` and `resolve` are the library operations (C11) -/
 theorem rescale_is_library (a : Arena) (k : Int) (i : Nat) :
     (nd (rescale a k) i).pedge = (nd a i).pedge.map (· * k) := (C11.rescale_every_length a k i).1
+
+
+/-! ## C18 (continued) — the tool's own loops: `collapse` and `remove`, in full
+
+`Arena/Cli.lean` models the two subcommands whose logic lives in the binary (`src/bin/phylotree/main.rs`).
+This file states their contracts over the WHOLE loops, on every arena satisfying the invariant `Good`
+(what every edit history and the parser produce, C03):
+
+* `collapse thr [-e]` never fails; it changes nothing but branch lengths; a node's length becomes `0` exactly
+  when the node has a parent, is not an excluded tip, and carries a length below the threshold; both records
+  of the length (the node's and its parent's) are written, so the invariant still holds.
+* `remove names…`, when it exits normally: the result satisfies the invariant, has no one-child non-root node,
+  no new tip (the tips of the result are exactly the tips of the input that were not removed), the path length
+  between any two remaining tips is what it was, and every name resolved to a live childless node carrying that
+  name which is gone from the result.  `cliRemoveTrace` is `cliRemove` instrumented to return also the slots
+  the names resolved to (`remove_trace_is_remove`).
+-/
+
+open AR
+
+/-! ## collapse -/
+
+/-- the condition under which the loop sets a node's length to zero (definition unfolded) -/
+theorem collapses_iff (thr : Int) (ex : Bool) (n : Node) :
+    Collapses thr ex n ↔
+      (n.parent.isSome = true ∧ ¬ (ex = true ∧ n.children = []) ∧ ∃ len, n.pedge = some len ∧ len < thr) :=
+  Iff.rfl
+
+/-- **`collapse`, the whole loop**, on any arena satisfying the invariant that has a root `r`: the call
+    succeeds; for EVERY slot the children, parent, name, comment, tombstone flag and depth are unchanged; a
+    node below the root gets length `0` iff `Collapses` holds for it and keeps its length otherwise; slots
+    not below the root are untouched; the result satisfies the invariant, in particular every parent's
+    record of a child's length is the child's own -/
+theorem collapse_whole_loop {a : Arena} (g : Good a) {r : Nat} (hr : getRoot a = some r) (thr : Int) (ex : Bool) :
+    ∃ a', cliCollapse a thr ex = .ok a' ∧ Good a' ∧ a'.size = a.size ∧
+      (∀ i, (nd a' i).children = (nd a i).children ∧ (nd a' i).parent = (nd a i).parent ∧
+        (nd a' i).name = (nd a i).name ∧ (nd a' i).comment = (nd a i).comment ∧
+        (nd a' i).deleted = (nd a i).deleted ∧ (nd a' i).depth = (nd a i).depth) ∧
+      (∀ i, (∃ k, BelowK a r i k) →
+        (nd a' i).pedge = if Collapses thr ex (nd a i) then some 0 else (nd a i).pedge) ∧
+      (∀ i, (¬ ∃ k, BelowK a r i k) → nd a' i = nd a i) ∧
+      (∀ p c, live a p → c ∈ (nd a p).children → alGet (nd a' p).cedges c = (nd a' c).pedge) := by
+  obtain ⟨a', e, g', hsz, hfr, hin, hout⟩ := cliCollapse_spec g hr thr ex
+  refine ⟨a', e, g', hsz, hfr, ?_, hout, ?_⟩
+  · intro i hi
+    rw [hin i hi, collapsedPedge_eq_ite]
+  · intro p c hl hc
+    obtain ⟨f1, _, _, _, f5, _⟩ := hfr p
+    have hl' : live a' p := ⟨by rw [hsz]; exact hl.1, by rw [f5]; exact hl.2⟩
+    exact (g'.1.child_ok p c hl' (by rw [f1]; exact hc)).2.2.2
+
+/-- **`collapse`, every slot**: when the live nodes form one tree (at most one parentless live node — every
+    tree the parser builds), the new length of EVERY slot `i` is
+    `if live a i ∧ Collapses thr ex (nd a i) then some 0 else (nd a i).pedge` -/
+theorem collapse_every_slot {a : Arena} (g : Good a) (h1 : AtMostOneRoot a) {r : Nat} (hr : getRoot a = some r)
+    (thr : Int) (ex : Bool) :
+    ∃ a', cliCollapse a thr ex = .ok a' ∧ Good a' ∧ a'.size = a.size ∧
+      (∀ i, (nd a' i).children = (nd a i).children ∧ (nd a' i).parent = (nd a i).parent ∧
+        (nd a' i).name = (nd a i).name ∧ (nd a' i).comment = (nd a i).comment ∧
+        (nd a' i).deleted = (nd a i).deleted ∧ (nd a' i).depth = (nd a i).depth) ∧
+      (∀ i, (nd a' i).pedge = if live a i ∧ Collapses thr ex (nd a i) then some 0 else (nd a i).pedge) :=
+  cliCollapse_spec_all g h1 hr thr ex
+
+/-- without a root the tool panics (an error exit) -/
+theorem collapse_no_root {a : Arena} (hr : getRoot a = none) (thr : Int) (ex : Bool) :
+    cliCollapse a thr ex = .err "RootNotFound" := by
+  simp [cliCollapse, root, hr, QR.ofOpt]
+
+/-! ## remove -/
+
+/-- the instrumented run returns the arena `cliRemove` returns (and the same errors) -/
+theorem remove_trace_is_remove (a : Arena) (tips : List String) :
+    cliRemove a tips = (cliRemoveTrace a tips).fst :=
+  cliRemoveTrace_fst a tips
+
+/-- **general composition lemma** (replaces `C18.remove_is_prune_then_compress`, which covered the empty list
+    only): one round of the loop — the name is looked up, must name a childless node, that node is pruned, the
+    ancestors that lost all their children are pruned — then `remove` on the remaining names -/
+theorem remove_unfold (a : Arena) (name : String) (rest : List String) :
+    cliRemove a (name :: rest) =
+      (match getByName a name with
+       | none => .err "NoSuchName"
+       | some x =>
+         if !(nd a x).children.isEmpty then .err "NotATip" else
+         match prune a x with
+         | (a1, .ok _) => cliRemove (pruneEmptied (fuelOf a) a1 (nd a x).parent) rest
+         | _ => .err "PruneFailed") := by
+  rw [cliRemove_eq, List.foldlM_cons, removeStep]
+  cases getByName a name with
+  | none => rfl
+  | some x =>
+    simp only [QR.ofOpt, QR.bind_ok, removeNode]
+    split
+    · rfl
+    · rcases prune a x with ⟨a1, o⟩
+      cases o with
+      | ok _ => simp only [QR.bind_ok]; rw [cliRemove_eq]
+      | err k => rfl
+      | panic => rfl
+      | diverge => rfl
+
+/-- ... and the empty list of names is the final `compress` -/
+theorem remove_nil (a : Arena) : cliRemove a [] = compressQ a := by
+  rw [cliRemove_eq]; rfl
+
+/-- a round on a name that resolves to a live childless node never fails -/
+theorem remove_round_total {a : Arena} (g : Good a) {name : String} {x : Nat} (hn : getByName a name = some x)
+    (ht : IsTip a x) : ∃ a1, removeStep a name = .ok a1 ∧ Good a1 := by
+  obtain ⟨a1, hp, ok⟩ := prune_ok_of_live g ht.1
+  have hr : removeNode a x = .ok (pruneEmptied (fuelOf a) a1 (nd a x).parent) := by
+    simp [removeNode, ht.2, hp]
+  refine ⟨pruneEmptied (fuelOf a) a1 (nd a x).parent, by simp [removeStep, hn, QR.ofOpt, hr], ?_⟩
+  exact (removeNode_spec g (Shrunk.refl a) (fun i _ _ hc _ => hc) hr).2.1
+
+/-- **outcomes of `remove`**: on an arena satisfying the invariant the model never panics and never exhausts
+    its fuel (the climb over emptied ancestors ends, `prune` and `compress` terminate); an error exit is one of
+    the tool's own panics (`NoSuchName`, `NotATip`, `PruneFailed` = the name resolved to a removed slot) or the
+    error value `compress` returned on the pruned tree -/
+theorem remove_outcomes {a : Arena} (g : Good a) (tips : List String) :
+    (∃ a', cliRemove a tips = .ok a') ∨
+    (∃ k, cliRemove a tips = .err k ∧ (k = "NoSuchName" ∨ k = "NotATip" ∨ k = "PruneFailed" ∨
+      ∃ a1, Good a1 ∧ (compress a1).2 = .err k)) :=
+  cliRemove_outcome g tips
+
+/-- **contract of `remove`**.  `a`: the tree read (invariant, at most one root); `a'`: the tree printed.
+    There is a list `xs` of slots, the ones the names resolved to in order (`cliRemoveTrace`), without
+    repetition, such that
+    (a) `a'` satisfies the invariant and has at most one root;
+    (b) no live non-root node of `a'` has exactly one child;
+    (c) nothing comes back to life; a tip of `a` not in `xs` is a tip of `a'`; a tip of `a'` is a tip of `a` not
+        in `xs` — NO NEW TIP — the only exception being the root of `a` once every tip of `a` has been removed;
+        any two distinct tips of `a'` are at the same path length in `a'` as in `a` (edge count not larger);
+    (d) each name resolved to a slot that is live in `a`, carries that name, is childless in `a` (or is the
+        root of `a`: the exception of (c), removed by a later name), and is not live in `a'`. -/
+theorem remove_contract {a a' : Arena} {tips : List String} (g : Good a) (h1 : AtMostOneRoot a)
+    (h : cliRemove a tips = .ok a') :
+    ∃ xs, cliRemoveTrace a tips = .ok (a', xs) ∧ xs.Nodup ∧
+      Good a' ∧ AtMostOneRoot a' ∧ (∀ i, ¬ Unary a' i) ∧
+      (∀ i, live a' i → live a i) ∧
+      (∀ i, IsTip a i → i ∉ xs → IsTip a' i) ∧
+      (∀ i, IsTip a' i → (IsTip a i ∧ i ∉ xs) ∨ (isRoot a i ∧ ¬ IsTip a i ∧ ∀ j, IsTip a j → j ∈ xs)) ∧
+      (∀ x y, IsTip a' x → IsTip a' y → x ≠ y →
+        ∃ d n n', distance a x y = .ok (d, n) ∧ distance a' x y = .ok (d, n') ∧ n' ≤ n) ∧
+      List.Forall₂ (fun name x => (live a x ∧ (nd a x).name = some name ∧
+        ((nd a x).children = [] ∨ (nd a x).parent = none)) ∧ ¬ live a' x) tips xs := by
+  obtain ⟨xs, hx⟩ := (cliRemove_ok_iff a a' tips).1 h
+  exact ⟨xs, hx, cliRemoveTrace_nodup g hx, cliRemove_contract g h1 hx⟩
+
+/-- (d), "at its turn": in the instrumented run the first slot is what the first name resolves to in the
+    current arena — a live childless node carrying that name — and the rest of the run is the run on the
+    remaining names from the arena this round leaves (which satisfies the invariant again) -/
+theorem remove_trace_round {b b2 : Arena} {name : String} {rest : List String} {ys : List Nat} (gb : Good b)
+    (h : removeLoopT b (name :: rest) = .ok (b2, ys)) :
+    ∃ x b1 xs, ys = x :: xs ∧ getByName b name = some x ∧ IsTip b x ∧ (nd b x).name = some name ∧
+      removeNode b x = .ok b1 ∧ Good b1 ∧ removeLoopT b1 rest = .ok (b2, xs) :=
+  removeLoopT_cons_ok gb h
+
+/-- the instrumented run is the instrumented loop followed by the final `compress` -/
+theorem remove_trace_ok {a a' : Arena} {tips : List String} {xs : List Nat}
+    (h : cliRemoveTrace a tips = .ok (a', xs)) :
+    ∃ a1 o, removeLoopT a tips = .ok (a1, xs) ∧ compress a1 = (a', .ok o) := by
+  unfold cliRemoveTrace at h
+  split at h
+  next a1 xs' hloop =>
+    split at h
+    next a2 hcq =>
+      injection h with h; injection h with e1 e2
+      subst e1 e2
+      obtain ⟨o, ho⟩ := compressQ_ok hcq
+      exact ⟨a1, o, hloop, ho⟩
+    · cases h
+    · cases h
+  · cases h
+  · cases h
+
+/-- **the tips after `remove`**: as soon as one tip of the input survives, the tips of the result are exactly
+    the tips of the input that were not removed -/
+theorem remove_tips_exact {a a' : Arena} {tips : List String} {xs : List Nat} (g : Good a)
+    (h1 : AtMostOneRoot a) (h : cliRemoveTrace a tips = .ok (a', xs)) (hs : ∃ j, IsTip a j ∧ j ∉ xs) (i : Nat) :
+    IsTip a' i ↔ (IsTip a i ∧ i ∉ xs) :=
+  cliRemove_tips g h1 h hs i
+
+/-! ## non-vacuity: `((A:3,B:4):1,C:2,(D:1):5);` — root 0, inner node 1 with tips 3 = A, 4 = B, tip 2 = C, and
+    the one-child node 5 above the tip 6 = D -/
+
+def exOps : List Op := [.add none, .addChild 0 (some 1) none, .addChild 0 (some 2) (some "C"),
+  .addChild 1 (some 3) (some "A"), .addChild 1 (some 4) (some "B"), .addChild 0 (some 5) none,
+  .addChild 5 (some 1) (some "D")]
+def exT : Arena := runOps #[] exOps
+
+theorem exT_good : Good exT := runOps_good _ empty_good
+
+theorem exT_oneRoot : AtMostOneRoot exT :=
+  (runOps_oneRoot exOps empty_good (fun i _ hi => absurd hi.1.1 (by simp))
+    ⟨fun i hi => absurd hi.1.1 (by simp), trivial, trivial, trivial, trivial, trivial, trivial, trivial⟩).2
+
+theorem exT_root : getRoot exT = some 0 := by decide
+
+/-- `collapse 3`: nodes 1, 2 and 6 (lengths 1, 2, 1) are collapsed, nodes 3, 4, 5 (lengths 3, 4, 5) are not, the
+    root has no length -/
+example : Collapses 3 false (nd exT 1) ∧ Collapses 3 false (nd exT 2) ∧ Collapses 3 false (nd exT 6) ∧
+    ¬ Collapses 3 false (nd exT 3) ∧ ¬ Collapses 3 false (nd exT 5) ∧ ¬ Collapses 3 false (nd exT 0) := by decide
+
+/-- with `-e` the tips 2 and 6 are excluded -/
+example : Collapses 3 true (nd exT 1) ∧ ¬ Collapses 3 true (nd exT 2) ∧ ¬ Collapses 3 true (nd exT 6) := by decide
+
+/-- the executable model on this tree, against the theorem -/
+example : ((cliCollapse exT 3 false).getD #[]).toList.map (·.pedge) =
+    [none, some 0, some 0, some 3, some 4, some 5, some 0] := by decide
+
+/-- the hypotheses of `collapse_every_slot` hold for this tree; two of its conclusions spelled out -/
+example : ∃ a', cliCollapse exT 3 true = .ok a' ∧ (nd a' 1).pedge = some 0 ∧ (nd a' 2).pedge = some 2 ∧
+    alGet (nd a' 0).cedges 1 = some 0 := by
+  obtain ⟨a', e, g', hsz, hf, hp⟩ := collapse_every_slot exT_good exT_oneRoot exT_root 3 true
+  have h1 : (nd a' 1).pedge = some 0 := by rw [hp 1]; decide
+  have h2 : (nd a' 2).pedge = some 2 := by rw [hp 2]; decide
+  refine ⟨a', e, h1, h2, ?_⟩
+  have hl : live a' 0 := ⟨by rw [hsz]; decide, by rw [(hf 0).2.2.2.2.1]; decide⟩
+  have hc : 1 ∈ (nd a' 0).children := by rw [(hf 0).1]; decide
+  rw [(g'.1.child_ok 0 1 hl hc).2.2.2, h1]
+
+/-- `remove D A`: the names resolve to the slots 6 and 3; the run succeeds -/
+def exR : Arena := (cliRemove exT ["D", "A"]).getD #[]
+
+theorem exR_run : cliRemoveTrace exT ["D", "A"] = .ok (exR, [6, 3]) := by
+  have h1 : (cliRemoveTrace exT ["D", "A"]).isOk = true := by decide
+  have h2 := QR.eq_ok h1 (#[], [])
+  have h3 : ((cliRemoveTrace exT ["D", "A"]).getD (#[], [])).2 = [6, 3] := by decide
+  have h4 : ((cliRemoveTrace exT ["D", "A"]).getD (#[], [])).1 = exR := by
+    unfold exR
+    rw [remove_trace_is_remove, h2]
+    rfl
+  rw [h2]
+  exact congrArg QR.ok (Prod.ext h4 h3)
+
+theorem exR_ok : cliRemove exT ["D", "A"] = .ok exR :=
+  (cliRemove_ok_iff _ _ _).2 ⟨_, exR_run⟩
+
+/-- the hypotheses of `remove_contract` / `remove_tips_exact` hold: the tips 4 = B and 2 = C survive, at the
+    same path length 7 (over one edge less: node 1 was left with one child and is spliced out); node 5, which
+    lost its only child, is gone and is NOT a new tip -/
+example : IsTip exT 4 ∧ IsTip exT 2 ∧ 4 ∉ [6, 3] ∧ IsTip exR 4 ∧ IsTip exR 2 ∧ ¬ live exR 5 ∧ ¬ live exR 6 ∧
+    ¬ live exR 3 ∧ ¬ live exR 1 ∧
+    distance exT 4 2 = .ok (some 7, 3) ∧ distance exR 4 2 = .ok (some 7, 2) := by
+  refine ⟨by decide, by decide, by decide, ?_, ?_, by decide, by decide, by decide, by decide,
+    distIs_eq (by decide), distIs_eq (by decide)⟩
+  · exact (remove_tips_exact exT_good exT_oneRoot exR_run ⟨4, by decide, by decide⟩ 4).2 ⟨by decide, by decide⟩
+  · exact (remove_tips_exact exT_good exT_oneRoot exR_run ⟨4, by decide, by decide⟩ 2).2 ⟨by decide, by decide⟩
+
+example : ∃ xs, cliRemoveTrace exT ["D", "A"] = .ok (exR, xs) ∧ xs.Nodup ∧ Good exR ∧ AtMostOneRoot exR ∧
+    (∀ i, ¬ Unary exR i) := by
+  obtain ⟨xs, h1, h2, h3, h4, h5, _⟩ := remove_contract exT_good exT_oneRoot exR_ok
+  exact ⟨xs, h1, h2, h3, h4, h5⟩
+
+/-- the degenerate case of (c): `(A:1)R;` — after `remove A` the root is the only node left (a childless
+    root that was not a tip of the input); `remove A R` then prunes the root as well -/
+def exDOps : List Op := [.add (some "R"), .addChild 0 (some 1) (some "A")]
+def exD : Arena := runOps #[] exDOps
+
+example : Good exD ∧ AtMostOneRoot exD ∧ (cliRemoveTrace exD ["A"]).isOk = true ∧
+    ((cliRemoveTrace exD ["A"]).getD (#[], [])).2 = [1] ∧
+    IsTip ((cliRemoveTrace exD ["A"]).getD (#[], [])).1 0 ∧ ¬ IsTip exD 0 ∧
+    ((cliRemoveTrace exD ["A", "R"]).getD (#[], [])).2 = [1, 0] := by
+  refine ⟨runOps_good _ empty_good, ?_, by decide, by decide, by decide, by decide, by decide⟩
+  exact (runOps_oneRoot exDOps empty_good (fun i _ hi => absurd hi.1.1 (by simp))
+    ⟨fun i hi => absurd hi.1.1 (by simp), trivial, trivial⟩).2
+
+/-- error exits of `remove` on this tree: unknown name, internal node -/
+example : cliRemove exT ["X"] = .err "NoSuchName" := by
+  rw [remove_unfold]; rfl
 
 end C18
